@@ -16,6 +16,7 @@ RULE = ("U3 plain / 1 control / 2 controls on the certificate grid of angle trip
         "entries; unmatched operations are the same objects in the same order; rule lists: [], [rule], [rule, rule], order-sensitive harness rules. "
         "non-trivial = circuit contains a rule-matched operation and a second operation or a non-trivial placement")
 RULE += ' Also: rule lists over 6 rules incl. one whose output re-matches itself, circuits with same-wrapper gates of equal parameters, predicate/production called in other orders than decompose_operations does.'
+RULE += ' Round 5: a rule with an empty production; one circuit object and one rule-list object mutated in place between decompositions (every history of 2-3 mutations).'
 ASSUMPTIONS = ["to_unitary is the ordered product (C01) and gate matrices are as C02 decided", "cut-off: W entries are trigonometric polynomials of the certified degree in the half angles"]
 BOUNDS = {"quick": {"grid": "full certificate grid for each U3 kind on one placement", "placements": "all, 3 angle triples", "length": 2},
           "thorough": {"grid": "full certificate grid", "placements": "all, 5 angle triples", "length": 2}}
